@@ -170,13 +170,17 @@ def biclique_shard(combine, transforms, T):
     hs, xs = inputs_for(T)
     B = len(hs)
     case = {"layer": "Biclique", "combine": combine, "transforms": transforms, "T": T}
-    pin = (lambda x: x * 2.0) if transforms else None
-    pout = (lambda x: x + 0.25) if transforms else None
+    # every connection and every neuron group gets its OWN transform (all different), so a transform bound to the wrong
+    # group is visible
+    pin_a = (lambda x: x * 2.0) if transforms else None
+    pin_b = (lambda x: x - 0.125) if transforms else None
+    pout1 = (lambda x: x * 0.5) if transforms else None
+    pout2 = (lambda x: x + 0.25) if transforms else None
     comb = custom_combine if combine == "custom" else combine
 
     def mk():
-        conns = [("a", dense(B, W1)) + ((pin,) if pin else ()), ("b", direct(B, WD))]
-        neus = [("n1", lif(B)), ("n2", alif(B)) + ((pout,) if pout else ())]
+        conns = [("a", dense(B, W1)) + ((pin_a,) if transforms else ()), ("b", direct(B, WD)) + ((pin_b,) if transforms else ())]
+        neus = [("n1", lif(B)) + ((pout1,) if transforms else ()), ("n2", alif(B)) + ((pout2,) if transforms else ())]
         return Biclique(conns, neus, combine=comb)
 
     try:
@@ -198,11 +202,12 @@ def biclique_shard(combine, transforms, T):
         oa, ob = ca(xa), cb(xb)
         if transforms:
             oa = oa * 2.0
+            ob = ob - 0.125
         if combine == "custom":
             z = oa - 0.5 * ob
         else:
             z = COMBINES[combine]([oa, ob])
-        e1 = n1(z)
+        e1 = n1(z * 0.5 if transforms else z)
         e2 = n2(z + 0.25 if transforms else z)
         for nm, exp, neu in (("n1", e1, layer.get_neuron("n1")), ("n2", e2, layer.get_neuron("n2"))):
             ok &= cmp(tally, f"biclique:{combine}:output", {**case, "step": t, "neuron": nm}, out[nm], exp, f"output of {nm}")
